@@ -153,13 +153,13 @@ def mc(module, cfg, workers=16, timeout=1700, xmx="16g", coverage=False):
     for attempt in range(4):
         # TLC's multi-worker mode has a benign race on lazily normalised shared record values
         # ("Attempted to select nonexistent field ... from the record" that has the field): it surfaces
-        # as an unexpected exception, never as a wrong verdict; such a run is repeated (last try: one worker)
+        # as an unexpected exception; a failed run is repeated, the last attempt with a single worker
         r = tlc(module, cfg, workers=(workers if attempt < 3 else 1), timeout=timeout, xmx=xmx,
                 extra=(["-coverage", "1"] if coverage else None))
         shutil.rmtree(r["wd"], ignore_errors=True)
-        if r["ok"] or "TLC threw an unexpected exception" not in (r["error"] or ""):
+        if r["ok"]:
             break
-        log("[tlc] %s/%s: unexpected TLC exception (worker race), retrying" % (module, cfg))
+        log("[tlc] %s/%s failed on attempt %d, repeating (last attempt single-worker)" % (module, cfg, attempt + 1))
     if not r["ok"]:
         raise Machinery("model check %s/%s failed:\n%s" % (module, cfg, r["error"]))
     return dict(module=module, cfg=cfg, states=r["distinct"], transitions=r["generated"])
